@@ -10,7 +10,7 @@ RULE = ('one increment (through the verif hook on Mapper.rtc) from every counter
         'histories of latch writes, register writes/reads, halt, RAM enable and elapsed time through the cartridge '
         'interface only (Mapper.Write/Read/EndMachineCycle really called), optionally from a hook-set state next to a '
         'minute/hour/day/512-day boundary; 70 s of real EndMachineCycle calls and minutes (thorough: an hour) of real '
-        'tick calls.  The model side advances by the proved closed form (C10_advance).  Non-trivial: some printed '
+        'tick calls; register reads of hook-set latched values over the whole uint8/uint16 range (masks).  The model side advances by the proved closed form (C10_advance).  Non-trivial: some printed '
         'value is not 0; distinct = distinct case ids')
 LEVEL_NOTE = ('C10_elapsed / C10_advance / C10_halted_frozen quantify over every n : N of elapsed cycles; C10_increment, '
               'C10_increment_cascade, C10_seconds over every counter state (in range / within widths); C10_latch_reads, '
@@ -30,10 +30,11 @@ def generate(rng, tier):
     hist = G.rtc_histories(rng, 3000 if thorough else 400)
     longr = G.rtc_long_runs(tier)
     days = G.rtc_days(rng, 400 if thorough else 80)
-    cases = inc + hist + longr + days
+    masks = G.rtc_mask_reads(rng, 100 if thorough else 10)
+    cases = inc + hist + longr + days + masks
     info = dict(exhaustive=thorough,
                 input_distribution=dict(increment_states_in_digests=nstates, increment_cases=len(inc), histories=len(hist),
-                                        long_runs=len(longr), boundary_crossings=len(days),
+                                        long_runs=len(longr), boundary_crossings=len(days), mask_read_cases=len(masks),
                                         ops_total=sum(len(c[1]) for c in cases)),
                 samples=[dict(case=c[0], script=c[1][:12] + ['...']) for c in (inc[0], hist[2], longr[0], days[0])])
     return cases, info
